@@ -19,7 +19,8 @@ import RuxModel.Model.Chain
           x<c> AbortWithStatus(c, msg), i<t> record IsAborted(), c<c> SetStatus(c), w<t> write chunk t
   <trace>: comma separated: E<h> L<h> M<h>.<t> P<h>.<t>.<0|1> A<h> S<h>.<c> W<h>.<t>
 -/
-namespace Rux.Drv
+namespace Rux.Drv.ChainE
+open Rux.Drv
 open Rux.Chain
 
 structure ChainSt where
@@ -101,4 +102,8 @@ def chainStep (s : ChainSt) : List String → ChainSt × String
 
 def chainEngine : Engine := { σ := ChainSt, init := {}, step := chainStep }
 
+end Rux.Drv.ChainE
+
+namespace Rux.Drv
+export ChainE (chainEngine)
 end Rux.Drv
